@@ -127,7 +127,15 @@ def call(H, op, g, rng=None):
             elif fmt == 4:
                 out.append((m, E(it["id"]), A(it["a"], "e")))
         if fmt == 5:
-            return {E(it["id"]): pair(it["m"], it["h"]) for it in items}
+            # a caller may well reuse one set object for several sides
+            shared = {}
+
+            def side5(m):
+                key = frozenset(m)
+                if rng.random() < 0.5 and -1 not in m:
+                    return shared.setdefault(key, {N(x) for x in m})
+                return side(m)
+            return {E(it["id"]): (side5(it["m"]), side5(it["h"])) for it in items}
         return out if rng.random() < 0.7 else iter(out)
 
     with warnings.catch_warnings(record=True) as wlist:
